@@ -772,6 +772,36 @@ def r98(F):
                            "the looked-up value (%s) is descended into only after an in-progress mark at %s" % (fn.where(lb), fn.where(marks[0])) if ok else
                            "%s recurses into a value looked up by name (%s) and records the visit only afterwards (or never): names that refer "
                            "to each other recurse until the stack overflows" % (short, fn.where(lb)))
+    # the in-progress marks only work if every recursive call of such a cycle hands on the one memo it was given: a fresh memo at
+    # some boundary hides the marks of the outer levels
+    for comp in comps:
+        cs = set(comp)
+        members = [F.fns[n] for n in comp]
+        marked = any(i["key"].startswith("R98:%s->" % m.name.split("::")[-1]) for m in members for i in r.instances)
+        if not marked:
+            continue
+        for fn in members:
+            memo_params = [k for k in range(1, fn.nargs + 1) if fn.local_ty(k).startswith("&mut alloc::vec::Vec<(")]
+            if not memo_params:
+                continue
+            mty = fn.local_ty(memo_params[0])
+            o = None
+            for b, t in fn.calls():
+                if not (set(CG.targets(t)) & cs):
+                    continue
+                for ai, a in enumerate(t["args"]):
+                    l = op_local(a)
+                    if l is None or fn.local_ty(l) != mty:
+                        continue
+                    o = o or Origins(fn)
+                    labs = o.at(a, b)
+                    ok = any(x == ("param", memo_params[0]) for x in labs) and not any(x[0] == "call" and x[1].endswith("Vec::new") for x in labs)
+                    short = fn.name.split("::")[-1]
+                    ordn = sum(1 for i in r.instances if i["key"].startswith("R98:memo:%s->" % short))
+                    r.inst("memo:%s->%s:#%d" % (short, callee(t).split("::")[-1], ordn), fn.where(b), ok,
+                           "the memo handed in is handed on" if ok else
+                           "%s starts this recursive call with a memo of its own: the in-progress marks of the enclosing calls are not "
+                           "visible below it and mutually recursive constraints recurse forever again" % short)
     return r
 
 
